@@ -293,6 +293,22 @@ def worker(items, extra, progress):
         if i % 8 == 0 and progress.stop_requested():
             break
         progress(i)
+        if isinstance(seed, dict):          # regression corpus: a fixed wikitext and the words that must reach the PDF
+            tmp = tempfile.mkdtemp(prefix="c08-", dir=str(common.BUILD))
+            try:
+                txt = test_mode_pdf(seed["text"], tmp)
+                txt = txt[0] if isinstance(txt, tuple) else txt
+                flat = "".join(str(txt).split())
+                missing = [w for w in seed["words"] if flat.count(w) < seed["text"].count(w)]
+                if missing:
+                    bad.append({"seed": None, "text": seed["text"], "why": f"PDF (test mode): the words {missing} of the regression corpus "
+                                f"({seed['note']}) are not on the page as often as in the article"})
+            except Exception as e:  # noqa: BLE001
+                bad.append({"seed": None, "text": seed["text"], "why": f"pipeline raised {type(e).__name__}: {str(e)[:200]} on the regression corpus"})
+            finally:
+                shutil.rmtree(tmp, ignore_errors=True)
+            hist["corpus-documents"] += 1
+            continue
         try:
             problems, info = check_collection(seed)
         except Exception as e:  # noqa: BLE001
@@ -307,6 +323,14 @@ def worker(items, extra, progress):
     return bad, dict(hist)
 
 
+class _NoProgress:
+    def __call__(self, i):
+        pass
+
+    def stop_requested(self):
+        return False
+
+
 def replay(chk, data):
     import logging
 
@@ -315,7 +339,14 @@ def replay(chk, data):
     from . import build_repo
 
     build_repo.overlay_all()
-    if "seed" in data:
+    if data.get("text") and not data.get("seed"):
+        bad, _ = worker([e for e in json.load(open(common.ROOT / "corpus" / "C08" / "regress.json")) if e["text"] == data["text"]]
+                        or [{"text": data["text"], "words": data["text"].split(), "note": "replay"}], None, _NoProgress())
+        chk.say(f"replay: {[b['why'] for b in bad] or 'every word reached the page'}")
+        if bad:
+            chk.violation("C08 violated: " + bad[0]["why"], data)
+        return
+    if data.get("seed") is not None:
         problems, info = check_collection(data["seed"])
         chk.say(f"replay: {problems[:2] or 'every word reached both outputs'}")
         if problems:
@@ -345,6 +376,9 @@ def run(chk: common.Check):
     chk.proof_coverage(res, trusted)
     n = 400 if tier == "thorough" else 48
     items = [chk.seed * 10_000_000 + 2_000_000 + i for i in range(n)]
+    corpus = common.ROOT / "corpus" / "C08" / "regress.json"
+    if corpus.exists():
+        items = json.load(open(corpus)) + items
     r, c = guard.guarded_run(str(chk.mkscratch()), "harness.c08:worker", items, nproc=16, hard_timeout=300, min_shard=3,
                              stop_when=lambda r, c: len(c) >= 2 or sum(len(x[0]) for x in r) >= 6)
     bad, hist = [], Counter()
